@@ -45,7 +45,9 @@ class TalCheck(CheckBase):
         g = Gen(ch, self.gen_opts)
         tmpl = g.template()
         return {"tmpl": tmpl, "plan_seed": ch.choose(1 << 30),
-                "nplans": self.plans_per_template}
+                "nplans": self.plans_per_template,
+                # (statements spelled data-tal-* / data-metal-* / data-i18n-*)
+                "data": ch.coin(0.15)}
 
     def make_plans(self, case: dict, tmpl: dict, template) -> list:
         """[(plan, handler_cfg)...]; explicit plans in the case win."""
@@ -77,7 +79,9 @@ class TalCheck(CheckBase):
         return out
 
     # -- execution ---------------------------------------------------------------
-    def compile(self, src: str):
+    def compile(self, src: str, data: bool = False):
+        if data:
+            return self.zt.PageTemplate(src, enable_data_attributes=True)
         return self.zt.PageTemplate(src)
 
     def run(self, case: dict) -> dict:
@@ -97,6 +101,7 @@ class TalCheck(CheckBase):
                 s_i, o_i = serialise(tmpl["files"][name],
                                      pretty=case.get("pretty", False),
                                      seps=case.get("seps", False),
+                                     data=case.get("data", False),
                                      fname=path)
                 if case.get("crlf"):
                     # (a Windows checkout: lines and columns stay the same)
@@ -112,17 +117,20 @@ class TalCheck(CheckBase):
         else:
             src, occ = serialise(tmpl["tree"],
                                  pretty=case.get("pretty", False),
-                                 seps=case.get("seps", False))
+                                 seps=case.get("seps", False),
+                                 data=case.get("data", False))
             if case.get("crlf"):
                 src = src.replace("\n", "\r\n")
         log.add("src", short_hash(src))
         try:
             if tmpdir is not None:
                 template = self.zt.PageTemplateFile(
-                    os.path.join(tmpdir, "main.pt"))
+                    os.path.join(tmpdir, "main.pt"),
+                    **({"enable_data_attributes": True}
+                       if case.get("data") else {}))
                 template.cook_check()
             else:
-                template = self.compile(src)
+                template = self.compile(src, case.get("data", False))
         except Exception as e:      # noqa: BLE001 - generator/harness problem
             if tmpdir is not None:
                 shutil.rmtree(tmpdir, ignore_errors=True)
@@ -319,8 +327,9 @@ class TalCheck(CheckBase):
             if "files" in tmpl:
                 return c            # (multi-file sets: keep the seed form)
             src, _ = serialise(tmpl["tree"], pretty=c.get("pretty", False),
-                               seps=c.get("seps", False))
-            template = self.compile(src)
+                               seps=c.get("seps", False),
+                               data=c.get("data", False))
+            template = self.compile(src, c.get("data", False))
             src_plans = self.make_plans(c, tmpl, template)
             c["plans"] = [{"plan": p, "handler": h} for p, h in src_plans]
             c.pop("plan_seed", None)
